@@ -213,6 +213,33 @@ CHECKS["C18"] = dict(
                       "rates multiples of 0.1 A (exact squared magnitudes); thresholds compared on decisive points only; "
                       "undefined values (0/0) not compared; return_magnitudes polarity not compared.")
 
+SORTED_NOTE = ("Trusted: TLC, Json, an in-process recorder wrapping sorted_algorithms.infrastructure_constraints_feasible and "
+               "the two search routines; Simulator._iteration is set directly when a lattice case is staged. EVSEs are "
+               "continuous-from-zero or finite-rate; limits <= 100 A; angles {30,-90,150} or single phase; distinct "
+               "priority keys; the estimator is a dict session_id -> bound (closed loop: the real SimpleRampdown); "
+               "undecidable float coincidences are counted non-decisive.")
+CHECKS["C07"] = dict(
+    text="SortedAlgo.tla models the sorting-based schedulers as a state machine (Preprocess, MinRate, Sort, ServeGreedy, "
+         "RRStep, Uncontrolled) with exact feasibility (limb arithmetic, the 1e-5 A tolerance included). TLC checks "
+         "OutputFeasible, LevelsAllowed, WithinDemand, WithinEstimatorOrMin, ZeroForInactive, NeverValueError in every "
+         "state of every scheduler run of the lattice (infrastructures x session profiles x option records). Every "
+         "emitted case is executed through a real ChargingNetwork + Simulator + Interface with the real algorithm and "
+         "compared exactly, step transcript included; continuous bisection results and every scheduler invocation of "
+         "closed-loop Simulator.run() on generated three-phase networks are re-executed and judged by TLC "
+         "(SortedAlgoTrace.tla); the runs are also watched for infeasible-schedule warnings, InvalidRateError and "
+         "energy above the request.",
+    tech="TLA+ spec (SortedAlgo.tla) + TLC invariants + spec-to-code case replay + code-to-spec batch trace validation",
+    ref="5/C07", note=SORTED_NOTE)
+CHECKS["C08"] = dict(
+    text="On SortedAlgo.tla TLC checks GreedyMaximal (defined independently on the final schedule: higher-priority "
+         "sessions at their final pilots, lower-priority ones at their lower bounds, no larger admissible level or r+eps "
+         "feasible), QueueSorted, ServedInOrder, RRStopsOnlyWhenBlocked (re-evaluated on recorded intermediate "
+         "schedules), RROneLevelAtATime and UncontrolledExact; sort keys are compared by cross-multiplication with "
+         "unequal max pilots, voltages and periods. Same binding as C07: every lattice case through the real classes, "
+         "step transcripts compared, continuous results judged by TLC.",
+    tech="TLA+ spec (SortedAlgo.tla) + TLC invariants/action property + spec-to-code case replay + code-to-spec validation",
+    ref="5/C08", note=SORTED_NOTE)
+
 NOT_APPLICABLE = []
 
 
